@@ -459,6 +459,12 @@ def run_stall(case):
             completed = any(d.startswith(b"226") for (_, d) in wire.srv_writes.get(ctl_id, []))
             stalled = "frozen_at" in info and (direction == "stor" or info.get("data_end") != "eof") and not completed
             info["stalled"] = stalled
+            if direction == "retr" and "frozen_at" in info and completed and not srv._lost_called and len(srv._sendbuf) > srv.get_write_buffer_limits()[1]:
+                # every block is written with a drain, so at most `high water` bytes can be
+                # waiting in the server's transport when the worker finishes; more than that
+                # means the worker kept writing into a connection that had stopped moving, said
+                # 226, and left a socket behind that no timeout will ever release
+                viol.append({"clause": "stalled-data-connection-not-given-up", "subject": "retr:completion-reply-while-stalled", "detail": f"socket_timeout={sock}: the data connection stopped moving at {info['frozen_at']:.6f}, the server nevertheless answered 226 and its data socket is still open at {world.loop.time():.6f} with {len(srv._sendbuf)} unsent bytes (write buffer high-water mark {srv.get_write_buffer_limits()[1]})"})
             if not stalled:
                 return
             closed = srv.closed_at
